@@ -179,6 +179,18 @@ var (
 		Text: "the script-level entry points (builtin format, fmt.sprintf) hand every format string to Format and never return it verbatim"}
 	rSYM2 = &Rule{Name: "SYM.2", Floor: 1, Fn: ruleSYM2,
 		Text: "builtin function names do not occupy the scope that holds the program's globals and the host's variables (listed finding: they do, so a global or host variable named like a builtin collides with it)"}
+	rCMP6 = &Rule{Name: "CMP.6", Floor: 2, Fn: ruleCMP6,
+		Text: "map equality: equal lengths, and every entry of the receiver Equals exactly what the lookup of the same key in the other map yields (a missing key makes the maps unequal; nothing is substituted for it)"}
+	rJMP3 = &Rule{Name: "JMP.3", Floor: 6, Fn: ruleJMP3,
+		Text: "the unconditional jumps that separate alternatives (over the else branch, loop back edges, break, continue) are emitted whenever their construct is compiled: never under a test of what the compiled body looks like"}
+	rSEM3 = &Rule{Name: "SEM.3", Floor: 11, Fn: ruleSEM3,
+		Text: "compound assignment: evaluated for every assignment token, compileAssign loads the current value of the left side exactly when it emits the binary operation"}
+	rSCAN2 = &Rule{Name: "SCAN.2", Floor: 8, Fn: ruleSCAN2,
+		Text: "every loop of the scanner driven by the current character stops at end of input: evaluated for ch = -1 its condition is false, or its body holds an exit whose condition is true there"}
+	rREC3 = &Rule{Name: "REC.3", Floor: 2, Fn: ruleREC3,
+		Text: "every function that takes a context.Context reaches the VM only through the recovering goroutine of the context-aware run method: none calls VM.Run, Compiled.Run or Script.Run directly"}
+	rNIL1 = &Rule{Name: "NIL.1", Floor: 8, Fn: ruleNIL1,
+		Text: "no Go nil becomes a script value: every read of a map[string]Object entry is a comma-ok lookup, compared with nil, handed to Equals, or assigned to a variable that is tested against nil before use"}
 	rSEARCH1 = &Rule{Name: "SEARCH.1", Floor: 2, Fn: ruleSEARCH1,
 		Text: "the position→file lookup is `last file with Base <= x`: searchFiles is sort.Search over Base > x minus one (or a clone of its documented sibling searchInts), and both containment tests are Base <= p <= Base+Size"}
 )
@@ -188,23 +200,23 @@ func allProperties() []*Property {
 		{ID: "C01",
 			Decided:    "compiler, generic codec, opcode tables and every VM arm agree byte for byte on the instruction format.",
 			NotDecided: "the language semantics themselves (values computed by operators, control flow, scoping, builtins).",
-			Rules:      []*Rule{rCODEC1, rCODEC2, rCODEC3, rCODEC4, rFRESH, rOPARM, rOPDOC, rSEM, rIDX1, rTWIN1, rFAM1, rSYM1}},
+			Rules:      []*Rule{rCODEC1, rCODEC2, rCODEC3, rCODEC4, rFRESH, rOPARM, rOPDOC, rSEM, rSEM3, rIDX1, rTWIN1, rFAM1, rSYM1}},
 		{ID: "C02",
 			Decided:    "instruction format agreement; opcode-class agreement.",
 			NotDecided: "stack balance and jump well-formedness for all compiled programs.",
-			Rules:      []*Rule{rCODEC1, rCODEC2, rCODEC3, rCODEC4, rCODEC5, rJMP1, rJMP2, rRET1, rSCOPE1}},
+			Rules:      []*Rule{rCODEC1, rCODEC2, rCODEC3, rCODEC4, rCODEC5, rJMP1, rJMP2, rJMP3, rSEM3, rRET1, rSCOPE1}},
 		{ID: "C03",
 			Decided:    "the optimizer's notion of jump / terminator is the VM's (opcode classes extracted from the VM arms).",
 			NotDecided: "equivalence of optimised and unoptimised code for all programs.",
-			Rules:      []*Rule{rCODEC5, rOPT, rRET1}},
+			Rules:      []*Rule{rCODEC5, rOPT, rRET1, rJMP3}},
 		{ID: "C04",
 			Decided:    "every explicit panic reachable from the scan/parse/compile entry points is recovered in place, proven unreachable from re-checked premises, or a listed finding; scope switches are exhaustive; the globals slot count is checked; compiler scope/loop stacks are balanced on error paths; parser error positions are token/node start positions.",
 			NotDecided: "termination; implicit run-time panics in general (index, nil, slice bounds); that every reported position lies inside the input.",
-			Rules:      []*Rule{rPANIC1, rPANIC2, rPANIC3, rPANIC4, rNILFIELD, rSCOPE1, rJMP2, rNEWPARSER, rPOSARG, rLIT1, rSCAN1}},
+			Rules:      []*Rule{rPANIC1, rPANIC2, rPANIC3, rPANIC4, rNILFIELD, rSCOPE1, rJMP2, rNEWPARSER, rPOSARG, rLIT1, rSCAN1, rSCAN2}},
 		{ID: "C05",
 			Decided:    "the structure that turns any ordinary panic of the VM goroutine into a returned error, waits for that goroutine, and releases the lock by defer on every exit.",
 			NotDecided: "which run-time faults a script can provoke; faults recover() cannot catch are only partly covered (thorough).",
-			Rules:      []*Rule{rREC, rLOCK, rFRESHVM, rFATAL1, rABORT, rLOOP1}},
+			Rules:      []*Rule{rREC, rREC3, rLOCK, rFRESHVM, rFATAL1, rABORT, rLOOP1, rNIL1}},
 		{ID: "C06",
 			Decided:    "count-then-check at every allocation site with a count-down counter read only against zero; every object the VM creates is counted; every String/Bytes producer in package tengo is guarded or bounded by construction; formatter output grows only behind the limit check; frame pushes are guarded.",
 			NotDecided: "the numbers as run-time facts (exactly N allocations, results unchanged when N grows); allocation inside Go library calls; stdlib-module producers.",
@@ -212,11 +224,11 @@ func allProperties() []*Property {
 		{ID: "C07",
 			Decided:    "atomic abort flag polled once per instruction, abort-then-drain on cancellation, fresh VM per run, lock released by defer.",
 			NotDecided: "the delay bound, goroutine counts and results of later runs as run-time facts.",
-			Rules:      []*Rule{rABORT, rREC, rLOCK, rLOOP1}},
+			Rules:      []*Rule{rABORT, rREC, rREC3, rLOCK, rLOOP1}},
 		{ID: "C08",
 			Decided:    "lock discipline of *Compiled; Copy is deep and fresh (what makes per-clone globals independent).",
 			NotDecided: "absence of data races over all interleavings; equality with the sequential baseline.",
-			Rules:      []*Rule{rLOCK, rCOPY1, rCLONE1, rFRESHVM, rSHARE, rPOOL1}},
+			Rules:      []*Rule{rLOCK, rCOPY1, rCLONE1, rFRESHVM, rSHARE, rPOOL1, rREC, rABORT}},
 		{ID: "C09",
 			Decided:    "no route from the storage of an immutable array/map to a write or to a mutable owner, in any function of any package (ownership rule on two fields).",
 			NotDecided: "immutability broken by embedder code or unsafe/reflect (neither occurs in the tree).",
@@ -224,7 +236,7 @@ func allProperties() []*Property {
 		{ID: "C10",
 			Decided:    "Copy is deep and fresh for every container.",
 			NotDecided: "arithmetic results; NaN/±0 laws as numeric facts.",
-			Rules:      []*Rule{rCMP1, rCMP2, rCMP3, rCMP4, rCMP5, rCONV1, rFALSY1, rCOPY1, rTWIN1}},
+			Rules:      []*Rule{rCMP1, rCMP2, rCMP3, rCMP4, rCMP5, rCMP6, rCONV1, rFALSY1, rCOPY1, rTWIN1}},
 		{ID: "C15",
 			Decided:    "type-level round trip of FromInterface/ToInterface; typed accessors call the documented conversion; Set/Get/GetAll guards; lock discipline; conversion table agreement.",
 			NotDecided: "the history clause (a variable reads as the last value set) over all call sequences.",
